@@ -175,8 +175,66 @@ def genuinely_new_locals(fn, mod, q, inv):
     return new
 
 
+def registry_profile(trees):
+    """string key k in `<x>.attrs[k]` -> {function: occurrences} (the graph's registries: nodes, rails, pnames, ...)"""
+    prof = {}
+    for mod, t in trees.items():
+        for scope, owner, fn in scopes(t):
+            q = (scope + "." if scope else "") + fn.name
+            for x in ast.walk(fn):
+                if isinstance(x, ast.Subscript) and isinstance(x.value, ast.Attribute) and x.value.attr == "attrs" and isinstance(x.slice, ast.Constant) \
+                        and isinstance(x.slice.value, str):
+                    prof.setdefault(x.slice.value, {}).setdefault(q, 0)
+                    prof[x.slice.value][q] += 1
+    return prof
+
+
+def rename_registry_keys(trees, inv):
+    want = inv.get("registries", {})
+    have = registry_profile(trees)
+    missing = [k for k in want if k not in have]
+    new = [k for k in have if k not in want]
+    if not missing or not new:
+        return {}
+
+    def sim(p, q):
+        ks = set(p) | set(q)
+        inter = sum(min(p.get(k, 0), q.get(k, 0)) for k in ks)
+        union = sum(max(p.get(k, 0), q.get(k, 0)) for k in ks)
+        return inter / union if union else 0.0
+    ren = {}
+    for m in missing:
+        row = sorted(((sim(want[m], have[n]), n) for n in new), reverse=True)
+        best, n = row[0]
+        second = row[1][0] if len(row) > 1 else 0.0
+        back = sorted((sim(want[m2], have[n]) for m2 in missing), reverse=True)
+        if best >= 0.7 and best - second >= 0.2 and back[0] == best:
+            ren[n] = m
+    if ren:
+        for mod, t in trees.items():
+            for x in ast.walk(t):
+                if isinstance(x, ast.Subscript) and isinstance(x.value, ast.Attribute) and x.value.attr == "attrs" and isinstance(x.slice, ast.Constant) \
+                        and x.slice.value in ren:
+                    x.slice = ast.copy_location(ast.Constant(value=ren[x.slice.value]), x.slice)
+    return ren
+
+
+def callers_of(trees):
+    """called name -> sorted list of the (scope-qualified) functions whose body calls it, package-wide (by name: f(..) or x.f(..))"""
+    out = {}
+    for mod, t in trees.items():
+        for scope, owner, fn in scopes(t):
+            q = (scope + "." if scope else "") + fn.name
+            for c in ast.walk(fn):
+                if isinstance(c, ast.Call):
+                    nm = c.func.attr if isinstance(c.func, ast.Attribute) else (c.func.id if isinstance(c.func, ast.Name) else None)
+                    if nm:
+                        out.setdefault(nm, set()).add(q)
+    return {k: sorted(v) for k, v in out.items()}
+
+
 def build_inventory(trees):
-    inv = {"functions": {}, "attrs": {}, "names": {}, "methods_of": {}, "locals": {}, "params": {}, "bindings": {}}
+    inv = {"functions": {}, "attrs": {}, "names": {}, "methods_of": {}, "locals": {}, "params": {}, "bindings": {}, "callers": callers_of(trees), "registries": registry_profile(trees)}
     for mod, t in trees.items():
         inv["functions"][mod] = {}
         inv["names"][mod] = module_names(t)
@@ -281,6 +339,15 @@ def _literal(v):
     return False
 
 
+def _pure_library_value(v):
+    """np.array(mpl.colors.to_rgb(_COLD_RGB)): a call of a dotted library function on literals / module names / such calls"""
+    if _literal(v) or _dotted(v):
+        return True
+    if isinstance(v, ast.Call) and isinstance(v.func, ast.Attribute) and _dotted(v.func) and not v.keywords:
+        return all(_pure_library_value(a) for a in v.args)
+    return False
+
+
 def _dotted(e):
     while isinstance(e, ast.Attribute):
         e = e.value
@@ -294,7 +361,8 @@ def propagate_new_constants(trees, inv):
     cand = {}
     for mod, t in trees.items():
         for n in t.body:
-            if isinstance(n, ast.Assign) and len(n.targets) == 1 and isinstance(n.targets[0], ast.Name) and _literal(n.value):
+            if isinstance(n, ast.Assign) and len(n.targets) == 1 and isinstance(n.targets[0], ast.Name) and (_literal(n.value) or (
+                    isinstance(n.value, ast.Call) and _pure_library_value(n.value))):
                 nm = n.targets[0].id
                 if nm in known or nm.startswith("__"):
                     continue
@@ -313,6 +381,11 @@ def propagate_new_constants(trees, inv):
                     stores += 5
                 elif isinstance(x, (ast.Global, ast.Nonlocal)) and nm in x.names:
                     stores += 5
+                elif isinstance(x, (ast.Subscript, ast.Attribute)) and isinstance(x.ctx, (ast.Store, ast.Del)) and isinstance(x.value, ast.Name) and x.value.id == nm:
+                    stores += 5      # stored into: not a constant
+                elif isinstance(x, ast.Call) and isinstance(x.func, ast.Attribute) and isinstance(x.func.value, ast.Name) and x.func.value.id == nm \
+                        and x.func.attr in ("append", "extend", "update", "pop", "clear", "remove", "insert", "setdefault", "sort", "reverse", "fill", "put", "resize"):
+                    stores += 5      # mutated in place
         if stores == 1:
             good[nm] = defs[0][1].value
     if not good:
@@ -365,6 +438,7 @@ def detect_function_renames(trees, inv):
                 mt = _mask(w[m], changed)
                 for n in new:
                     score[(m, n)] = _similar(mt, _mask(tokens(h[n]), changed))
+            matched_m, matched_n = set(), set()
             for m in missing:
                 row = sorted(((score[(m, n)], n) for n in new), reverse=True)
                 best, n = row[0]
@@ -372,6 +446,23 @@ def detect_function_renames(trees, inv):
                 col = sorted((score[(m2, n)] for m2 in missing), reverse=True)
                 if best >= 0.72 and best - second >= 0.08 and col[0] == best and (len(col) == 1 or col[0] - col[1] >= 0.08):
                     ren[(mod, scope, n)] = m
+                    matched_m.add(m)
+                    matched_n.add(n)
+            # renamed *and* rewritten (a loop turned into a comprehension): the body no longer matches, but the function is still
+            # called from exactly the places the missing one was called from - and from nowhere else
+            now_callers = callers_of(trees)
+            was_callers = inv.get("callers", {})
+            for m in missing:
+                if m in matched_m or not was_callers.get(m):
+                    continue
+                cands = [n for n in new if n not in matched_n and now_callers.get(n) and
+                         {c.rpartition(".")[2] for c in now_callers[n]} - changed == {c.rpartition(".")[2] for c in was_callers[m]} - changed
+                         and len(now_callers[n]) == len(was_callers[m]) and score[(m, n)] >= 0.3]
+                others = [m2 for m2 in missing if m2 not in matched_m and m2 != m and was_callers.get(m2) == was_callers.get(m)]
+                if len(cands) == 1 and not others:
+                    ren[(mod, scope, cands[0])] = m
+                    matched_m.add(m)
+                    matched_n.add(cands[0])
     return ren, news
 
 
@@ -1340,6 +1431,8 @@ def canonicalise(trees, specialise=True):
     applied = apply_renames(trees, fren, aren)
     for k, v in sorted(applied.items()):
         notes.append("renamed back: %s -> %s" % (k, v))
+    for k, v in sorted(rename_registry_keys(trees, inv).items()):
+        notes.append("registry key renamed back: %s -> %s" % (k, v))
     if applied:
         # the set of unknown functions shrinks by the renamed ones
         _, news = detect_function_renames(trees, inv)
